@@ -223,3 +223,34 @@ func VerifH_C05_n3v2() { verifC05(3, 2, 2, true) }
 func VerifH_C05_n4v2() { verifC05(4, 2, 2, true) }
 func VerifH_C05_n4v3() { verifC05(4, 3, 2, false) }
 func VerifH_C05_n5v2() { verifC05(5, 2, 2, false) }
+
+// VerifC06Via checks the merged-clock clauses of C06 through a caller-supplied reader, for the same symbolic
+// topologies; used by the harness of utils/adapters (the adapter that abft and the emitter read the merged
+// clock through), which cannot be imported from here.
+func VerifC06Via(N, V, maxOther int, read func(vi *Index, id hash.Event, v idx.Validator) (idx.Event, bool)) {
+	vals, _ := verifWeights(V)
+	evs := verifTopology(N, V, maxOther)
+	order := make([]int, N)
+	for i := range order {
+		order[i] = i
+	}
+	vi := verifIndex(vals, evs, order)
+	for a := 0; a < N; a++ {
+		for v := 0; v < V; v++ {
+			var maxSeq idx.Event
+			for x := 0; x < N; x++ {
+				if evs[a].anc[x] && evs[x].creator == v && evs[x].seq > maxSeq {
+					maxSeq = evs[x].seq
+				}
+			}
+			seq, fork := read(vi, evs[a].e.ID(), idx.Validator(v))
+			if forkIn(evs, a, v) {
+				sym.Assert(fork, "merged clock reports a fork exactly when two same-seq events of the validator are in the ancestry")
+				sym.Reach("fork-visible")
+			} else {
+				sym.Assert(!fork && seq == maxSeq, "merged clock reports the highest observed sequence (0 if none)")
+			}
+		}
+	}
+	sym.Reach("topology")
+}
